@@ -91,9 +91,11 @@ def setup(ctx):
     from gemdat.jumps import Jumps
     from gemdat.transitions import Transitions
 
-    _mon.attach(Transitions, 'split', label='Transitions.split')
-    _mon.attach(Jumps, 'split', label='Jumps.split')
-    _mon.attach(Jumps, 'rates', label='Jumps.rates')
+    from .. import retain as _rt
+
+    _mon.attach(Transitions, 'split', label='Transitions.split', retain=_rt.transitions_parts)
+    _mon.attach(Jumps, 'split', label='Jumps.split', retain=_rt.jumps_parts)
+    _mon.attach(Jumps, 'rates', label='Jumps.rates', retain=_rt.auto)
     _mon.attach(Trajectory, 'split', label='Trajectory.split')
 
 
@@ -154,8 +156,12 @@ def check_transitions_split(tr, n, ctx, what, wit, part_positions=None):
 
         tb = traceback.format_exc()
         ctx.decided()
-        if n >= T and 'index 0 is out of bounds' in str(exc) and 'in split' in tb and 'base_positions = coords[0]' in tb:
-            ctx.known_finding(K7, f'{what}: Transitions.split({n}) on {T} frames ({len(orig)} events) raised IndexError from an empty sub-trajectory')
+        # K7 is Trajectory.split(n) building an empty frame range when n >= the number of frames of the trajectory
+        # being split; the trajectory carried by a part of an earlier split can be one frame shorter than its
+        # state array (Trajectory.split leaves the last frame unused)
+        T_traj = min(len(tr.trajectory), len(tr.diff_trajectory))
+        if n >= T_traj and 'index 0 is out of bounds' in str(exc) and 'in split' in tb and 'base_positions = coords[0]' in tb:
+            ctx.known_finding(K7, f'{what}: Transitions.split({n}) on {T} state frames / a trajectory of {T_traj} frames ({len(orig)} events) raised IndexError from an empty sub-trajectory')
         else:
             ctx.violation(f'{what}: Transitions.split({n}) raised IndexError: {exc} (frames={T}, events={len(orig)})', {**wit, 'traceback': tb[-1500:]})
         return None
@@ -373,6 +379,34 @@ def run_unit(unit, rng, ctx):
             if j is not None:
                 check_jumps_split(tr, j, n, res, ctx, what, wit, default_settings)
             ctx.case(signature(np.asarray(tr.states), n), n >= 2 and res[2] >= 2, sample={'lattice': sys_.kind, 'T': T, 'atoms': sys_.n_floating, 'events': n_events, 'n_parts': n, 'parts_with_events': res[2], 'event_offsets_of_parts': res[1]})
+            # a part is itself a Transitions object: splitting it again obeys the same laws
+            if n >= 2 and rng.integers(2):
+                cands = [p for p in res[0] if len(p.events) >= 2 and len(np.asarray(p.states)) >= 4]
+                if cands:
+                    part = cands[int(rng.integers(len(cands)))]
+                    n2 = int(rng.integers(2, min(len(part.events), len(np.asarray(part.states)) - 1, 5) + 1)) if min(len(part.events), len(np.asarray(part.states)) - 1) >= 2 else 1
+                    if check_transitions_split(part, n2, ctx, what + f' [a part of split({n}) split again]', wit) is not None:
+                        ctx.count('nested_splits')
+        # the same history with its event table presented differently (sorted by time instead of by atom; row
+        # labels kept from the old order, offset, or with gaps): a Transitions object built from it splits alike
+        if n_events >= 2:
+            from gemdat.transitions import Transitions
+
+            ev = tr.events
+            how = str(rng.choice(['by_time_kept_labels', 'by_time_fresh_labels', 'offset_labels', 'shuffled_kept_labels']))
+            if how == 'by_time_kept_labels':
+                ev2 = ev.sort_values(['time', 'atom index'], kind='stable')
+            elif how == 'by_time_fresh_labels':
+                ev2 = ev.sort_values(['time', 'atom index'], kind='stable').reset_index(drop=True)
+            elif how == 'offset_labels':
+                ev2 = ev.copy()
+                ev2.index = ev2.index + int(rng.integers(1, 500))
+            else:
+                ev2 = ev.sample(frac=1.0, random_state=int(rng.integers(2**31)))
+            tr2 = Transitions(trajectory=tr.trajectory, diff_trajectory=tr.diff_trajectory, sites=tr.sites, events=ev2, states=np.asarray(tr.states).copy(), inner_states=np.asarray(tr.inner_states).copy())
+            n3 = int(rng.integers(2, min(n_events, T - 1, 6) + 1)) if min(n_events, T - 1) >= 2 else 1
+            if check_transitions_split(tr2, n3, ctx, what + f' [event table {how}]', wit) is not None:
+                ctx.count(f'event_table_presentation:{how}')
     sta = np.asarray(tr.states)
     ctx.count('systems')
     ctx.count('events_at_first_frame', int(np.sum(sta[0] != sta[1])))
